@@ -372,19 +372,11 @@ Proof.
 Qed.
 
 (* ------------------------------------------------------------------------------------------ *)
-(* 5. label names.  Known defect (finding c13 duplicate label_0r): the "r" label of target 0 and
-      the "r" label of target 1 get the same name. *)
+(* 5. label names are distinct (after fix 3f82254: the label of target 0 is never named "..r") *)
 
 Definition labels_distinct (times : list Z) (jumps : list (nat * option Z)) : Prop :=
   forall i j a b, label_for times jumps i = Some a -> label_for times jumps j = Some b ->
                   l_id a = l_id b -> i = j.
-
-Lemma labels_distinct_all_scripts_refuted : exists times jumps, ~ labels_distinct times jumps.
-Proof.
-  exists [5; 9], [(0%nat, Some 0); (1%nat, Some 5)]. intros H.
-  specialize (H 0%nat 1%nat {| l_id := 1; l_time := 0 |} {| l_id := 1; l_time := 5 |}).
-  assert (E : 0%nat = 1%nat) by (apply H; vm_compute; reflexivity). discriminate.
-Qed.
 
 Lemma label_for_id times jumps i lb : label_for times jumps i = Some lb -> exists r, l_id lb = label_id r i.
 Proof.
@@ -392,13 +384,13 @@ Proof.
   destruct (label_at_offset _ _ (a :: args)) as [is_r t]. intros E. inversion E. now exists is_r.
 Qed.
 
-Lemma labels_distinct_guarded : forall times jumps,
-  (forall lb, label_for times jumps 0 = Some lb -> l_id lb = 0) -> labels_distinct times jumps.
+Lemma labels_distinct_all : forall times jumps, labels_distinct times jumps.
 Proof.
-  intros times jumps G i j a b Ha Hb E.
+  intros times jumps i j a b Ha Hb E.
   destruct (label_for_id _ _ _ _ Ha) as [ra Ra]. destruct (label_for_id _ _ _ _ Hb) as [rb Rb].
-  destruct i as [|i]; destruct j as [|j]; auto.
-  - rewrite (G a Ha) in E. rewrite Rb in E. unfold label_id in E. destruct rb; lia.
-  - rewrite (G b Hb) in E. rewrite Ra in E. unfold label_id in E. destruct ra; lia.
-  - rewrite Ra, Rb in E. unfold label_id in E. destruct ra, rb; destruct i, j; lia.
+  rewrite Ra, Rb in E. unfold label_id in E.
+  destruct ra, rb; destruct i as [|i], j as [|j]; try reflexivity; lia.
 Qed.
+
+(* the label of one offset is unique by construction (label_for is a function of the target); the
+   decompiled statement list never contains one label name twice *)
